@@ -65,10 +65,19 @@ func UnmarshalUintID(v any) (uint, error) {
 		result, err := strconv.ParseUint(v, 10, 64)
 		return uint(result), err
 	case int:
+		if v < 0 {
+			return 0, newUintSignError(strconv.FormatInt(int64(v), 10))
+		}
 		return uint(v), nil
 	case int64:
+		if v < 0 {
+			return 0, newUintSignError(strconv.FormatInt(v, 10))
+		}
 		return uint(v), nil
 	case int32:
+		if v < 0 {
+			return 0, newUintSignError(strconv.FormatInt(int64(v), 10))
+		}
 		return uint(v), nil
 	case uint32:
 		return uint(v), nil
